@@ -5,6 +5,7 @@
    [hd common]; oldb is the part of the current chain above that block, so
    lcr = oldb ++ common and the new chain is (b :: newtl) ++ common. *)
 From Saito Require Import Base Chain ChainBasics ChainInv ChainWind ChainAdd ChainProofs ChainCheck.
+From Saito Require Import PurgeInv PurgeWind PurgeAdd PurgeProofs PurgeCheck ChainPurge.
 
 (* the tip moves only to a chain that is strictly longer over the diverging segment,
    at least as heavy in burn fee, valid block by block, and passes the golden-ticket
@@ -159,3 +160,63 @@ Print Assumptions C05_orphan_inert_with_loading_completed.
 Print Assumptions C05_adopts_first_needs_cfg_refuted.
 Print Assumptions C05_orphan_disturbs_refuted.
 Print Assumptions C05_gt_window_every_six_refuted.
+
+(* ================================================================================== *)
+(* ALL BLOCK IDS (model/ChainPurge.v, see the header in props/C03.v)                      *)
+(* ================================================================================== *)
+Theorem C05p_tip_moves_only_if : forall c U, puniv c U -> valid_wf U ->
+  forall ps lcs lcp b ps' r,
+  PInvW c U ps lcs lcp -> step_ok c U ps b -> add_block_p c ps b = Ok (ps', r) ->
+  latest_hash (core ps') <> latest_hash (core ps) ->
+  r = OnChain
+  /\ exists newtl oldb common lcs' lcp',
+       lcs = oldb ++ common /\ PInvW c U ps' lcs' lcp'
+       /\ lcs' ++ lcp' = (b :: newtl) ++ common ++ lcp /\ (exists r0, lcs' = b :: r0)
+       /\ linked_dn U (b :: newtl) (common ++ lcp)
+       /\ (length oldb < length (b :: newtl))%nat
+       /\ bf_total oldb <= bf_total (b :: newtl)
+       /\ forallb b_valid (b :: newtl) = true
+       /\ gt_count_valid (core ps) (b_prev b) (b_gt b) = true
+       /\ tip_id lcs - gp_of c < b_id b /\ tip_id lcs < b_id b
+       /\ latest_hash (core ps') = Ok (b_hash b).
+Proof. exact tip_moves_only_if_p. Qed.
+
+Theorem C05p_height_monotone : forall c U, puniv c U -> valid_wf U ->
+  forall ps lcs lcp b ps' r,
+  PInvW c U ps lcs lcp -> step_ok c U ps b -> add_block_p c ps b = Ok (ps', r) ->
+  exists i i', latest_id (core ps) = Ok i /\ latest_id (core ps') = Ok i' /\ i <= i'.
+Proof. exact height_monotone_p. Qed.
+
+(* complete characterisation of one call (record pmain in proofs/PurgeProofs.v); the converse
+   direction of fork choice ("adopts") is the q_res / q_on part of it *)
+Theorem C05p_add_block_characterisation : forall c U, puniv c U -> valid_wf U ->
+  forall ps lcs lcp b,
+  PInvW c U ps lcs lcp -> step_ok c U ps b ->
+  exists ps' r, add_block_p c ps b = Ok (ps', r) /\
+    ((get_block (core ps) (b_hash b) <> None /\ r = Exists /\ ps' = ps)
+     \/ (get_block (core ps) (b_hash b) = None /\ (r = Retry \/ r = Invalid) /\ ps' = ps
+         /\ blocks (core ps) = [] /\ ring_empty (core ps) = false /\ b_prev b <> 0 /\ snd c = true)
+     \/ (get_block (core ps) (b_hash b) = None
+         /\ exists newtl oldb common, pmain c U ps lcs lcp b ps' r newtl oldb common)).
+Proof. exact add_block_p_spec. Qed.
+
+(* REFUTED without conn: a block whose parent IS stored, on a stored fork whose fork point has
+   been purged, takes the out-of-order branch of add_block (the listed finding orphan-branch
+   without any orphan): gp = 2, fork 13 <- 14 on block 2, chain up to 6 (block 2 purged), then 15
+   on 14: the reported tip goes back from 6 to 5 and block 6 loses its on-chain flag *)
+Lemma C05p_disconnected_fork_refuted :
+  exists ps ps' r,
+    phistory_check pw_cfg (pw_fork ++ [pw_fork_b]) (hashes pw_fork) = true
+    /\ deliver_p pw_cfg (pinit pw_cfg) pw_fork = Ok ps
+    /\ step_ok_b pw_cfg (pw_fork ++ [pw_fork_b]) ps pw_fork_b = false
+    /\ get_block (core ps) (b_prev pw_fork_b) <> None
+    /\ add_block_p pw_cfg ps pw_fork_b = Ok (ps', r)
+    /\ latest_id (core ps) = Ok 6 /\ latest_id (core ps') = Ok 5
+    /\ lc_hash_at pw_cfg (ring (core ps)) 6 = Some 6 /\ lc_hash_at pw_cfg (ring (core ps')) 6 = None
+    /\ (exists sb, get_block (core ps') 6 = Some sb /\ s_lc sb = false).
+Proof. exact purge_disconnected_fork_witness. Qed.
+
+Print Assumptions C05p_tip_moves_only_if.
+Print Assumptions C05p_height_monotone.
+Print Assumptions C05p_add_block_characterisation.
+Print Assumptions C05p_disconnected_fork_refuted.
